@@ -225,6 +225,14 @@ def check_protocol(events):
         bad.append("executescript (commits implicitly) used in a write operation")
     if 'isolation_level' in kinds:
         bad.append("isolation level changed")
+    # the all-or-nothing argument for process death rests on SQLite's default on-disk rollback journal and full
+    # synchronisation: the only setting a write operation may touch is the foreign-key enforcement
+    for e in events:
+        if e[0] == 'pragma' and ''.join(str(e[1]).lower().split()).rstrip(';') not in ('pragmaforeign_keys=on', 'pragmaforeign_keys=1'):
+            bad.append(f"connection setting changed inside a write operation: {str(e[1]).strip()[:60]}")
+        if e[0] in ('execute', 'execute!') and isinstance(e[-1], str) and e[-1].strip().upper().startswith(
+                ('SAVEPOINT', 'RELEASE', 'ROLLBACK', 'BEGIN', 'END', 'COMMIT', 'ATTACH', 'DETACH', 'VACUUM')):
+            bad.append(f"transaction control statement issued by hand: {e[-1].strip()[:60]}")
     if 'commit' in kinds:
         i = kinds.index('commit')
         if any(k in ('execute', 'execute!') for k in kinds[i + 1:]):
